@@ -130,6 +130,10 @@ type fnTrans struct {
 	retExp func() string // return tuple expression in the current state
 	named  []string      // named results
 	nextID int
+	optional bool     // function contains loops: it returns Option (none = fuel exhausted)
+	aux      []string // auxiliary loop definitions emitted before the function
+	nextLoop int
+	retType  string
 }
 
 func (t *fnTrans) fail(n ast.Node, f string, a ...interface{}) {
@@ -786,6 +790,14 @@ func (t *fnTrans) stmts(list []ast.Stmt, lvl int, rest func(lvl int)) {
 			vs := sp.(*ast.ValueSpec)
 			for i, n := range vs.Names {
 				id := t.fresh(n.Name)
+				if vs.Type == nil && i < len(vs.Values) {
+					// var u = Element{a, b, c, d}
+					if cl, ok := vs.Values[i].(*ast.CompositeLit); ok {
+						t.declLiteral(n.Name, cl, lvl, s)
+						continue
+					}
+					t.fail(s, "unsupported untyped variable declaration")
+				}
 				if at, ok := vs.Type.(*ast.ArrayType); ok {
 					cnt, err := strconv.Atoi(t.p.src(at.Len))
 					if err != nil {
@@ -870,9 +882,9 @@ func (t *fnTrans) stmts(list []ast.Stmt, lvl int, rest func(lvl int)) {
 				}
 				ws = append(ws, t.word(r))
 			}
-			fmt.Fprintf(w, "%s%s\n", ind(lvl), t.retWith(ws))
+			fmt.Fprintf(w, "%s%s\n", ind(lvl), t.wrapRet(t.retWith(ws)))
 		} else {
-			fmt.Fprintf(w, "%s%s\n", ind(lvl), t.retExp())
+			fmt.Fprintf(w, "%s%s\n", ind(lvl), t.wrapRet(t.retExp()))
 		}
 	case *ast.IfStmt:
 		if v.Init != nil {
@@ -993,9 +1005,135 @@ func (t *fnTrans) stmts(list []ast.Stmt, lvl int, rest func(lvl int)) {
 		emit(0, lvl+2)
 		fmt.Fprintf(w, "%s)\n", ind(lvl+1))
 		next(lvl)
+	case *ast.ForStmt:
+		if v.Init != nil || v.Post != nil {
+			t.fail(s, "only `for cond {}` and `for {}` loops are supported")
+		}
+		if !t.optional {
+			t.fail(s, "internal: loop in a function not marked optional")
+		}
+		t.nextLoop++
+		name := fmt.Sprintf("%s_loop%d", leanName(t.fd.Name.Name), t.nextLoop)
+		live, params := t.liveVars()
+		saved := t.out
+		sub := &strings.Builder{}
+		t.out = sub
+		if v.Cond == nil {
+			if len(tail) != 0 {
+				t.fail(s, "statements after an infinite loop")
+			}
+			fmt.Fprintf(sub, "def %s (fuel : Nat)%s : Option (%s) :=\n  match fuel with\n  | 0 => none\n  | fuel + 1 =>\n", name, params, t.retType)
+			snap := t.snapshot()
+			t.stmts(v.Body.List, 2, func(l int) {
+				fmt.Fprintf(sub, "%s%s fuel %s\n", ind(l), name, strings.Join(live, " "))
+			})
+			t.vars = snap
+			t.out = saved
+			t.aux = append(t.aux, sub.String())
+			fmt.Fprintf(w, "%s%s %d %s\n", ind(lvl), name, 1200, strings.Join(live, " "))
+			return
+		}
+		acc := map[string]bool{}
+		t.assigned(v.Body.List, map[string]bool{}, acc)
+		var names []string
+		for k := range acc {
+			names = append(names, k)
+		}
+		sort.Strings(names)
+		if len(names) == 0 {
+			t.fail(s, "loop assigns nothing")
+		}
+		var tys []string
+		for _, n := range names {
+			tys = append(tys, t.typeOfName(n))
+		}
+		pat := tuplePat(names)
+		fmt.Fprintf(sub, "def %s (fuel : Nat)%s : Option (%s) :=\n  match fuel with\n  | 0 => none\n  | fuel + 1 =>\n    if %s then\n", name, params, strings.Join(tys, " × "), t.cond(v.Cond))
+		snap := t.snapshot()
+		t.stmts(v.Body.List, 3, func(l int) {
+			fmt.Fprintf(sub, "%s%s fuel %s\n", ind(l), name, strings.Join(live, " "))
+		})
+		t.vars = snap
+		fmt.Fprintf(sub, "    else\n      some %s\n", pat)
+		t.out = saved
+		t.aux = append(t.aux, sub.String())
+		fmt.Fprintf(w, "%s(%s %d %s).bind fun %s =>\n", ind(lvl), name, 600, strings.Join(live, " "), pat)
+		next(lvl + 1)
 	default:
-		t.fail(s, "unsupported statement (T2 handles straight-line code, if, switch)")
+		t.fail(s, "unsupported statement (T2 handles straight-line code, if, switch, for-with-fuel)")
 	}
+}
+
+func (t *fnTrans) wrapRet(e string) string {
+	if t.optional {
+		return "some " + e
+	}
+	return e
+}
+
+func (t *fnTrans) declLiteral(name string, cl *ast.CompositeLit, lvl int, n ast.Node) {
+	if id, ok := cl.Type.(*ast.Ident); !ok || id.Name != "Element" {
+		t.fail(n, "unsupported composite literal type")
+	}
+	if len(cl.Elts) != 0 && len(cl.Elts) != t.p.limbs {
+		t.fail(n, "Element literal with %d of %d limbs", len(cl.Elts), t.p.limbs)
+	}
+	id := t.fresh(name)
+	t.vars[name] = &variable{kind: kArr, n: t.p.limbs, store: id}
+	for j := 0; j < t.p.limbs; j++ {
+		val := "0"
+		if j < len(cl.Elts) {
+			val = t.word(cl.Elts[j])
+		}
+		fmt.Fprintf(t.out, "%slet %s := %s\n", ind(lvl), cell(id, j), val)
+	}
+}
+
+// all variables currently in scope, as Lean names (cells of arrays, scalars), sorted, with a binder string
+func (t *fnTrans) liveVars() ([]string, string) {
+	seen := map[string]string{}
+	for _, v := range t.vars {
+		switch v.kind {
+		case kArr:
+			for _, c := range cells(v) {
+				seen[c] = "Nat"
+			}
+		case kWord:
+			seen[v.store] = "Nat"
+		case kBool:
+			seen[v.store] = "Bool"
+		}
+	}
+	var names []string
+	for k := range seen {
+		names = append(names, k)
+	}
+	sort.Strings(names)
+	var sb strings.Builder
+	for _, n := range names {
+		fmt.Fprintf(&sb, " (%s : %s)", n, seen[n])
+	}
+	return names, sb.String()
+}
+
+func (t *fnTrans) typeOfName(n string) string {
+	for _, v := range t.vars {
+		if v.kind == kBool && v.store == n {
+			return "Bool"
+		}
+	}
+	return "Nat"
+}
+
+func hasLoop(fd *ast.FuncDecl) bool {
+	found := false
+	ast.Inspect(fd.Body, func(n ast.Node) bool {
+		if _, ok := n.(*ast.ForStmt); ok {
+			found = true
+		}
+		return true
+	})
+	return found
 }
 
 func (t *fnTrans) fresh(base string) string {
@@ -1084,6 +1222,13 @@ func (t *fnTrans) assign(v *ast.AssignStmt, lvl int) {
 		e := &ast.BinaryExpr{X: v.Lhs[0], Op: op, Y: v.Rhs[0], OpPos: v.Pos()}
 		fmt.Fprintf(w, "%slet %s := %s\n", ind(lvl), t.lhsName(v.Lhs[0]), t.word(e))
 		return
+	}
+	// r := Element{}  /  r := Element{1, 2, 3, 4}
+	if v.Tok == token.DEFINE && len(v.Lhs) == 1 && len(v.Rhs) == 1 {
+		if cl, ok := v.Rhs[0].(*ast.CompositeLit); ok {
+			t.declLiteral(v.Lhs[0].(*ast.Ident).Name, cl, lvl, v)
+			return
+		}
 	}
 	// element copy: t := *a   /  _z := *z
 	if v.Tok == token.DEFINE && len(v.Lhs) == 1 && len(v.Rhs) == 1 {
@@ -1243,15 +1388,25 @@ func translate(p *pkgInfo, goName string, alias []int, suffix string) string {
 		}
 		rt = strings.Join(parts, " × ")
 	}
+	t.retType = rt
+	t.optional = hasLoop(fd)
 	body := fd.Body.List
 	t.stmts(body, 1, func(lvl int) {
-		fmt.Fprintf(t.out, "%s%s\n", ind(lvl), t.retExp())
+		fmt.Fprintf(t.out, "%s%s\n", ind(lvl), t.wrapRet(t.retExp()))
 	})
 	params := ""
 	if len(sig) > 0 {
 		params = " (" + strings.Join(sig, " ") + " : Nat)"
 	}
-	return fmt.Sprintf("def %s%s%s : %s :=\n%s\n", leanName(goName), suffix, params, rt, t.out.String())
+	if t.optional {
+		rt = "Option (" + rt + ")"
+	}
+	auxText := strings.ReplaceAll(strings.Join(t.aux, "\n"), leanName(goName)+"_loop", leanName(goName)+suffix+"_loop")
+	main := strings.ReplaceAll(t.out.String(), leanName(goName)+"_loop", leanName(goName)+suffix+"_loop")
+	if auxText != "" {
+		auxText += "\n"
+	}
+	return fmt.Sprintf("%sdef %s%s%s : %s :=\n%s\n", auxText, leanName(goName), suffix, params, rt, main)
 }
 
 type spec struct {
